@@ -69,10 +69,30 @@ class Raw:
 
     @staticmethod
     def of_tensor(t):
+        """read the raw arrays through the cffi struct itself (independent of Tensor.taco_indices /
+        taco_vals / items, which are code under test)"""
+        from tensora.compile import tensor_cdefs
+
+        ct = t.cffi_tensor
+        order = int(ct.order)
+        dims = tuple(int(ct.dimensions[i]) for i in range(order))
+        ordering = tuple(int(ct.mode_ordering[i]) for i in range(order))
+        modes = tuple("d" if int(ct.mode_types[i]) == 0 else "s" for i in range(order))
+        idx = tensor_cdefs.cast("int32_t***", ct.indices)
         levels = []
-        for mode, lvl in zip(t.modes, t.taco_indices):
-            levels.append(("d",) if mode.character == "d" else ("s", list(lvl[0]), list(lvl[1])))
-        return Raw(t.dimensions, [m.character for m in t.modes], t.mode_ordering, levels, list(t.taco_vals))
+        npos = 1
+        for l in range(order):
+            if modes[l] == "d":
+                levels.append(("d",))
+                npos *= dims[ordering[l]]
+            else:
+                pos = [int(idx[l][0][k]) for k in range(npos + 1)]
+                n = pos[-1] if pos else 0
+                crd = [int(idx[l][1][k]) for k in range(max(n, 0))]
+                levels.append(("s", pos, crd))
+                npos = len(crd)
+        vals = tensor_cdefs.cast("double*", ct.vals)
+        return Raw(dims, modes, ordering, levels, [float(vals[k]) for k in range(npos)])
 
     def decode(self, explicit_zeros=True):
         """coordinate (dimension order) -> value, straight from the arrays."""
